@@ -816,6 +816,10 @@ def _cmp_filter(c, io, drv, inputs, order, scale, spec_of):
         else:
             safe = False
             info["cond_tol"] = "not compared (bound > 1e-2)"
+            if tolc <= 0.5:
+                # too ill-conditioned for a comparison of values, but the divisors keep their sign and at
+                # least one digit: the float recursion cannot meet a zero divisor either, it must go on
+                info["goes_on"] = tolc
     if "err" in io and io["err"].startswith("UNMAPPED"):
         return [("model", e + ": unmapped impl exception " + io["err"])], info
 
@@ -828,6 +832,20 @@ def _cmp_filter(c, io, drv, inputs, order, scale, spec_of):
         # unless both sides agree anyway.
         if model.get("err") != io.get("err") or "err" not in model:
             info["skipped"] = True
+        if info.get("goes_on") is not None:
+            if "err" in io:
+                out.append(("spec", "%s: impl raises %s although the exact recursion meets no zero divisor "
+                                    "(smallest relative divisor %.3g, float error bound %.2g)" %
+                            (e, io["err"], cond, info["goes_on"])))
+                out.append(("model", "%s: impl raises %s, model returns a filter" % (e, io["err"])))
+            else:
+                ia, ma = decl(io["a"]), decl(model["a"])
+                top = max(abs(x) for x in ma)
+                if len(ia) < len(ma) and abs(ma[-1]) > 4 * info["goes_on"] * (1 + top):
+                    out.append(("spec", "%s: the recursion stopped short of the requested order: %d coefficients, the "
+                                        "exact solution has %d (last one %.6g)" % (e, len(ia), len(ma), float(ma[-1]))))
+                    out.append(("model", "%s: coefficient count differs" % e))
+            info["goes_on"] = True
         return out, info
 
     # --- impl <-> model -------------------------------------------------------------
@@ -1171,7 +1189,9 @@ def tally(eng, c, io):
     if info.get("near_singular"):
         eng.count("near_singular_smallest_relative_divisor", "%s:%s" % (e, info["near_singular"]))
         eng.count("near_singular_compared_with_tolerance", "%s:%s" % (e, info.get("cond_tol", "not compared (bound > 1e-2)")))
-    elif info.get("cond_tol"):
+    if info.get("goes_on"):
+        eng.count("near_singular_not_compared_but_must_return", e)
+    if info.get("cond_tol") and not info.get("near_singular"):
         eng.count("high_growth_compared_with_tolerance", "%s:%s" % (e, info["cond_tol"]))
         eng.count("near_singular_impl_outcome", "%s:%s" % (e, io.get("err", "returns (goes on to the order)")))
     if info.get("singular_witness"):
